@@ -169,6 +169,8 @@ End == /\ pc' = "idle" /\ todo' = <<>> /\ sub' = "get" /\ setrefs' = FALSE /\ cr
 Ok(k, o) == Log(H("call", k, o, "ok")) /\ UNCHANGED faults
 Fail(k, o) == CanFault /\ faults' = faults + 1 /\ Log(H("call", k, o, "fail"))
 Crash(k, o) == CanFault /\ faults' = faults + 1 /\ Log(H("call", k, o, "crashAfter"))
+\* a read served by an informer cache that has not seen the object yet: NotFound although it exists
+Miss(k, o) == CanFault /\ faults' = faults + 1 /\ Log(H("call", k, o, "miss"))
 \* continue the reconcile at (p, t, s); the ghosts and counters of the call sequence stay
 Goto(p, t, s, sr) == /\ pc' = p /\ todo' = t /\ sub' = s /\ setrefs' = sr /\ UNCHANGED <<crt, vok, blk, stale, recs>>
 
@@ -239,6 +241,16 @@ ValGet ==
                  THEN Goto("val", todo, "dry", setrefs)
                  ELSE ValNext(vok, crt))                  \* missing and not controlling: nothing to do
      \/ Fail("get", o) /\ End
+     \* the cache misses an object that exists: a controlling revision goes on to dry-run its CREATION (which the API server
+     \* refuses: AlreadyExists - Establish returns the error, nothing was written). (A non-controlling revision takes the object
+     \* for missing and leaves it out - it will add its plain owner reference in a later reconcile; not modelled.)
+     \* (added after the seeded change C16-m10 - AlreadyExists from the dry-run create tolerated - was missed)
+     \/ /\ obj[o].ex /\ ctl /\ Miss("get", o)
+        /\ Goto("val", todo, "drymiss", setrefs)
+  /\ UNCHANGED <<obj, rej, rev, cur, ctl, edits, doneOk>>
+ValDryMiss ==
+  /\ pc = "val" /\ sub = "drymiss"
+  /\ LET o == Head(todo) IN Ok("create-dry", o) /\ End
   /\ UNCHANGED <<obj, rej, rev, cur, ctl, edits, doneOk>>
 DryVerb(o) == IF obj[o].ex THEN "update-dry" ELSE "create-dry"
 ValDry ==
@@ -278,7 +290,7 @@ Status ==
      \/ Crash("update-status", cur) /\ rev' = Recorded /\ UNCHANGED doneOk /\ End
   /\ UNCHANGED <<obj, rej, cur, ctl, edits>>
 
-Rec == (\E r \in Revs : Start(r)) \/ RelGet \/ RelUpd \/ ValGet \/ ValDry \/ EstWrite \/ Status
+Rec == (\E r \in Revs : Start(r)) \/ RelGet \/ RelUpd \/ ValGet \/ ValDry \/ ValDryMiss \/ EstWrite \/ Status
 Next == Env \/ Rec \/ \E o \in Objs : Grab(o) \/ GrabCreate(o)
 Spec == Init /\ [][Next]_vars
 
